@@ -1,4 +1,4 @@
-#![allow(dead_code, unused_imports, unused_variables)]
+#![allow(dead_code, unused_imports, unused_variables, unused_mut, unused_assignments)]
 mod golden;
 mod gw;
 mod oracle;
@@ -52,7 +52,9 @@ fn arg_val(args: &[String], name: &str) -> Option<String> {
 
 fn main() {
     // Contract panics are caught by the host and turned into errors; keep stderr quiet.
-    std::panic::set_hook(Box::new(|_| {}));
+    if std::env::var("VH_DEBUG").is_err() {
+        std::panic::set_hook(Box::new(|_| {}));
+    }
     let args: Vec<String> = std::env::args().collect();
     if args.len() < 2 {
         eprintln!("usage: vh run <PROP> --tier T --seed N --shard i --of n --out FILE | vh replay FILE | vh selftest");
